@@ -138,12 +138,32 @@ pub fn run_tight_bounds(l: &[i128]) -> Vec<i128> {
     if l.is_empty() {
         return vec![-3];
     }
-    let path = match crate::c02::build_path(&l[1..]) {
-        Some(p) => p,
-        None => return vec![1, 0, 0, 0, 0],
+    // kinds 3 / 4: the constructors that do not go through the builder ops: PathBuilder::from_rect (writes its bounds directly)
+    // and PathBuilder::from_oval, args l t r b (bit patterns)
+    if (l[0] == 3 || l[0] == 4) && l.len() != 5 {
+        return vec![-3];
+    }
+    let path = if l[0] == 3 || l[0] == 4 {
+        let rect = match tiny_skia_path::Rect::from_ltrb(crate::f(l[1]), crate::f(l[2]), crate::f(l[3]), crate::f(l[4])) {
+            Some(r) => r,
+            None => return vec![1, 0, 0, 0, 0],
+        };
+        if l[0] == 3 {
+            tiny_skia_path::PathBuilder::from_rect(rect)
+        } else {
+            match tiny_skia_path::PathBuilder::from_oval(rect) {
+                Some(p) => p,
+                None => return vec![1, 0, 0, 0, 0],
+            }
+        }
+    } else {
+        match crate::c02::build_path(&l[1..]) {
+            Some(p) => p,
+            None => return vec![1, 0, 0, 0, 0],
+        }
     };
     let path = match l[0] {
-        0 => path,
+        0 | 3 | 4 => path,
         1 => {
             let st = Stroke { width: 3.0, miter_limit: 4.0, line_cap: LineCap::Round, line_join: LineJoin::Round, dash: None };
             match path.stroke(&st, 1.0) {
